@@ -55,7 +55,7 @@ def analyse(case):
     for idx, e in enumerate(r.trace):
         if e["k"] == "start":
             runs.append({"w": e["w"], "uid": e["uid"], "prefix": e["prefix"], "vm_action": e.get("p_vm_action"), "vms": e.get("p_vms"), "idx": idx,
-                         "states": {k: e.get("p_" + k) for k in scn.watch if k.endswith("_state_images")}, "seq": e["seq"],
+                         "states": {k: e.get("p_" + k) for k in scn.watch if k.endswith("_state_images")}, "seq": e["seq"], "main_vm": e.get("p_main_vm"),
                          "modes": {k[:-3]: e.get("p_" + k) for k in scn.watch if k.endswith("@vm")},
                          "status": ends.get(e["seq"], {}).get("status"), "end_idx": next((j for j, x in enumerate(r.trace) if x["k"] == "end" and x["seq"] == e["seq"]), None)})
     return {"case": case, "exc": r.exc, "rc": r.rc, "runs": runs, "kinds": [p[0] for p in r.points], "choices": r.choices}
@@ -73,6 +73,7 @@ def run(tier: str, seed: int) -> int:
     steps = STATE_STEPS + list(VM_STEPS) + ["noop"] + list(ROOT_STEPS)
     chains = [[s] for s in steps]
     chains += [["create", "set"], ["clean", "create"], ["collect", "get"], ["unset", "clean"]]
+    chains += [["boot", "get"], ["shutdown", "pop"], ["upload", "collect", "set"], ["control", "check"], ["boot", "unset", "shutdown"]]
     if q:
         chains += [["check", "get"], ["boot", "shutdown"], ["noop", "set"], ["get", "boot", "set"], ["unset", "pop"], ["push", "pop"], ["check", "check"], ["get", "boot", "get"]]
     else:
@@ -147,6 +148,12 @@ def run(tier: str, seed: int) -> int:
                     rep.violation(f"[{cid}] step {i} ({step}) executed without addressing the {ROOT_STEPS[step][1]} state ({x['states']})", inp, {"kind": "missing-param", "step": step})
                 if step in STATE_STEPS and x["states"].get(f"{step}_state_images") != f"st_{step}":
                     rep.violation(f"[{cid}] step {i} ({step}) executed without its state parameter ({x['states']})", inp, {"kind": "missing-param", "step": step})
+                # the step's own parameters: a state step acts on the vm it was parsed for, a management step on the first selected vm
+                acted = (x["vms"] or "").split()
+                want_main = acted[0] if (step in STATE_STEPS or step in ROOT_STEPS) else sorted(c["vms"])[0]
+                if x.get("main_vm") != want_main:
+                    rep.violation(f"[{cid}] step {i} ({step}) for {x['vms']} on {x['w']} acts on main_vm={x.get('main_vm')!r}, expected {want_main!r}", inp,
+                                  {"kind": "wrong-main-vm", "step": step, "chained": len(c["chain"]) > 1})
                 for vm in (x["vms"] or "").split():
                     if vm not in c["vms"]:
                         rep.violation(f"[{cid}] step {i} ({step}) executed for unselected {vm}", inp, {"kind": "unselected-vm"})
